@@ -27,13 +27,16 @@ func vBits(name string, n int, lo, hi byte) []byte {
 	return p
 }
 
-var vPropSet = []Properties{{3, 0, 2}, {0, 0, 0}, {8, 4, 4}, {0, 4, 0}, {4, 0, 1}, {1, 3, 3}}
+var vPropSet = []Properties{{3, 0, 2}, {0, 0, 0}, {4, 1, 3}, {0, 4, 0}, {4, 0, 1}, {1, 3, 3}}
 
 // classic .lzma: all termination modes, explicit-size contract.
 func VH_RT_lzma() {
 	variant := vConcretize(int(vNondetU8("variant")) % 12)
 	vAssume(variant%vShards() == vShardIdx())
 	props := vPropSet[variant%6]
+	if vThorough() && variant%6 == 2 {
+		props = Properties{8, 4, 4} // largest literal table (0x300<<12 cells)
+	}
 	cfg := WriterConfig{Properties: &props, DictCap: 4096, BufSize: 4096}
 	if variant >= 6 {
 		cfg.Matcher = BinaryTree
